@@ -489,6 +489,11 @@ impl Drop for Ctx {
                 let _ = a.load(std::sync::atomic::Ordering::Relaxed);
                 let _ = a.fetch_add(0, std::sync::atomic::Ordering::Relaxed);
             }
+            // ... and another one clears the cells (a container dropping its contents), also when
+            // the panic that unwinds is loom's report of a race on that very cell
+            for c in self.env.cells.iter() {
+                c.with_mut(|_| ());
+            }
             return;
         }
         for hs in self.arcs.drain(..) {
